@@ -254,7 +254,19 @@ func runC13(c *Ctx) {
 			Instrs(merge, false, func(in ssa.Instruction) {
 				if st, ok := in.(*ssa.Store); ok && IsFieldOf("ValueNilness", field)(st.Addr) {
 					// only stores into the result literal, not the parameter spills
-					if AddrFrom(st.Addr, func(v ssa.Value) bool { a, ok := v.(*ssa.Alloc); return ok && a.Comment == "complit" }) {
+					if AddrFrom(st.Addr, func(v ssa.Value) bool {
+						a, ok := v.(*ssa.Alloc)
+						if !ok {
+							return false
+						}
+						// a cell that never receives a whole value (so not the spill of a parameter) and that the function returns
+						for _, r := range *a.Referrers() {
+							if w, isSt := r.(*ssa.Store); isSt && w.Addr == ssa.Value(a) {
+								return false
+							}
+						}
+						return true
+					}) {
 						vals = append(vals, st.Val)
 					}
 				}
@@ -298,14 +310,92 @@ func runC13(c *Ctx) {
 			if k, ok := r.Results[0].(*ssa.Const); ok && k.Value == nil {
 				zero = true
 			}
+			// … or a literal all of whose fields are the constant 0
+			if u, ok := r.Results[0].(*ssa.UnOp); ok {
+				if al, ok := u.X.(*ssa.Alloc); ok {
+					allZero, any := true, false
+					for _, ref := range *al.Referrers() {
+						switch x := ref.(type) {
+						case *ssa.FieldAddr:
+							for _, rr := range *x.Referrers() {
+								if st, ok := rr.(*ssa.Store); ok {
+									any = true
+									if k, isK := ConstInt(st.Val); !isK || k != 0 {
+										allZero = false
+									}
+								}
+							}
+						case *ssa.Store:
+							if x.Addr == ssa.Value(al) {
+								allZero = false
+							}
+						}
+					}
+					if allZero && any {
+						zero = true
+					}
+				}
+			}
 		}
 		c.Check(FuncKey(ident)+"::zero-value", ident.Pos(), zero, "Ident returns the zero ValueNilness, i.e. table index 0 in both components")
 		eq := false
+		fromParam := func(v ssa.Value) bool {
+			return DerivesLocal(v, func(x ssa.Value) bool { _, ok := x.(*ssa.Parameter); return ok })
+		}
 		for _, r := range Returns(equals) {
 			if bo, ok := r.Results[0].(*ssa.BinOp); ok && bo.Op == token.EQL {
-				px := DerivesLocal(bo.X, func(v ssa.Value) bool { _, ok := v.(*ssa.Parameter); return ok })
-				py := DerivesLocal(bo.Y, func(v ssa.Value) bool { _, ok := v.(*ssa.Parameter); return ok })
-				eq = px && py
+				eq = fromParam(bo.X) && fromParam(bo.Y)
+			}
+			// a.Inner == b.Inner && a.Outer == b.Outer: a φ that is false unless every field comparison held
+			if phi, ok := r.Results[0].(*ssa.Phi); ok {
+				fields := map[string]bool{}
+				okShape := true
+				var walk func(v ssa.Value, depth int)
+				walk = func(v ssa.Value, depth int) {
+					switch x := v.(type) {
+					case *ssa.Const:
+						if !isBoolConst(x, false) {
+							okShape = false
+						}
+					case *ssa.BinOp:
+						if x.Op != token.EQL || !fromParam(x.X) || !fromParam(x.Y) {
+							okShape = false
+							return
+						}
+						for y := range BackSlice(x.X, SliceOpts{}) {
+							if fa, ok := y.(*ssa.FieldAddr); ok {
+								if _, f := FieldOf(fa.X.Type(), fa.Field); f != nil {
+									fields[f.Name()] = true
+								}
+							}
+							if fv, ok := y.(*ssa.Field); ok {
+								if _, f := FieldOf(fv.X.Type(), fv.Field); f != nil {
+									fields[f.Name()] = true
+								}
+							}
+						}
+					case *ssa.Phi:
+						if depth > 3 {
+							okShape = false
+							return
+						}
+						for _, e := range x.Edges {
+							walk(e, depth+1)
+						}
+					default:
+						okShape = false
+					}
+				}
+				walk(phi, 0)
+				// the conjunction is complete only if the branch conditions are the other field comparisons
+				for _, b := range equals.Blocks {
+					if iff, ok := b.Instrs[len(b.Instrs)-1].(*ssa.If); ok {
+						walk(iff.Cond, 1)
+					}
+				}
+				if okShape && fields["Inner"] && fields["Outer"] {
+					eq = true
+				}
 			}
 		}
 		c.Check(FuncKey(equals)+"::structural-equality", equals.Pos(), eq, "Equals is == on both components")
@@ -314,15 +404,7 @@ func runC13(c *Ctx) {
 	c.Rule("R13.3", func() {
 		c.Floor("R13.3", 7)
 		prop := c.Func("analysis/dfa/dense", "(*fwdBuilder).propagate")
-		var all []*ssa.Function
-		var collect func(f *ssa.Function)
-		collect = func(f *ssa.Function) {
-			all = append(all, f)
-			for _, a := range f.AnonFuncs {
-				collect(a)
-			}
-		}
-		collect(prop)
+		all := DeepFuncs(prop, 2)
 		isEnqueue := func(in ssa.Instruction) bool {
 			ci, ok := in.(ssa.CallInstruction)
 			return ok && IsCallTo(ci, densePkg+".nodeHeap.enqueue")
@@ -340,6 +422,12 @@ func runC13(c *Ctx) {
 				}
 				nStores++
 				t, path := PathAvoiding(f, st, func(x ssa.Instruction) bool { _, ok := x.(*ssa.Return); return ok }, isEnqueue, nil)
+				// the two statements are independent: an enqueue earlier in the very same block (same branch) is as good
+				for _, x := range st.Block().Instrs {
+					if isEnqueue(x) {
+						t = nil
+					}
+				}
 				c.Check(FuncKey(prop)+"::changed-edge-fact-⇒-enqueue-successor", st.Pos(), t == nil, "after storing a new out fact the edge's successor must be re-enqueued on every path; path without enqueue: %s", PathString(f, path))
 				// the enqueued node is the successor the loop is at, not the block itself
 				for _, ci := range Calls(f, false) {
@@ -377,8 +465,9 @@ func runC13(c *Ctx) {
 			u, ok := cond.(*ssa.UnOp)
 			return ok && u.Op == token.MUL && IsFieldOf("blockInfo", "dirty")(u.X), false
 		})
-		sameIn := CallTrueEdges(prop, func(call *ssa.Call) bool {
-			return call.Call.IsInvoke() && call.Call.Method.Name() == "Equals" && anyArg(call, func(v ssa.Value) bool { return DerivesLocal(v, IsFieldOf("blockInfo", "in")) })
+		sameIn := CondEdgesPhi(prop, func(cond ssa.Value) (bool, bool) {
+			call, ok := cond.(*ssa.Call)
+			return ok && call.Call.IsInvoke() && call.Call.Method.Name() == "Equals" && anyArg(call, func(v ssa.Value) bool { return DerivesLocal(v, IsFieldOf("blockInfo", "in")) }), true
 		})
 		isHead := func(x ssa.Instruction) bool {
 			for _, l := range lenCalls {
@@ -435,6 +524,14 @@ func runC13(c *Ctx) {
 				if st, ok := in.(*ssa.Store); ok && AddrFrom(st.Addr, IsFieldOf("nodeHeap", "inQueue")) {
 					if bo, ok := st.Val.(*ssa.BinOp); ok && bo.Op == op {
 						found = true
+					}
+					// x &^ m spelled x & ^m
+					if bo, ok := st.Val.(*ssa.BinOp); ok && op == token.AND_NOT && bo.Op == token.AND {
+						for _, o := range []ssa.Value{bo.X, bo.Y} {
+							if u, ok := o.(*ssa.UnOp); ok && u.Op == token.XOR {
+								found = true
+							}
+						}
 					}
 				}
 			})
@@ -507,6 +604,46 @@ func runC13(c *Ctx) {
 			}
 			c.Check(FuncKey(fwd)+"::re-enqueue-users-of-the-changed-value", mu.Pos(), ok, "after Mapping[v] changed, the instructions re-enqueued must be v.Referrers() for that same v (not the referrers of the instruction that was just processed)")
 		})
+		// … or a helper of the package that is handed the value and inserts its referrers
+		reenqueueHelper := func(ci ssa.CallInstruction) (ssa.Value, bool) {
+			h := ci.Common().StaticCallee()
+			if h == nil || h.Blocks == nil || FuncPkgPath(h) != FuncPkgPath(fwd) {
+				return nil, false
+			}
+			for pi, prm := range h.Params {
+				if pi >= len(ci.Common().Args) {
+					continue
+				}
+				inserts := false
+				for _, f := range DeepFuncs(h, 0) {
+					Instrs(f, false, func(in ssa.Instruction) {
+						mu, ok := in.(*ssa.MapUpdate)
+						if !ok {
+							return
+						}
+						for x := range BackSlice(mu.Key, SliceOpts{}) {
+							if call, ok := x.(*ssa.Call); ok && call.Call.IsInvoke() && call.Call.Method.Name() == "Referrers" && call.Call.Value == ssa.Value(prm) {
+								inserts = true
+							}
+						}
+					})
+				}
+				if inserts {
+					return ci.Common().Args[pi], true
+				}
+			}
+			return nil, false
+		}
+		for _, ci := range Calls(fwd, false) {
+			if !ReachesFrom(fwd, upd, ci) {
+				continue
+			}
+			if r, ok := reenqueueHelper(ci); ok {
+				nIns++
+				same := r == upd.Key || (DerivesLocal(r, IsFieldOf("Mapping", "Value")) && DerivesLocal(upd.Key, IsFieldOf("Mapping", "Value")) && AddrKeyOfLoad(r) == AddrKeyOfLoad(upd.Key))
+				c.Check(FuncKey(fwd)+"::re-enqueue-users-of-the-changed-value", ci.Pos(), same, "after Mapping[v] changed, the instructions re-enqueued must be v.Referrers() for that same v (not the referrers of the instruction that was just processed)")
+			}
+		}
 		if nIns == 0 {
 			c.Check(FuncKey(fwd)+"::re-enqueue-users-of-the-changed-value", upd.Pos(), false, "no worklist insertion fed by Referrers() follows the update of ins.Mapping")
 		}
@@ -518,7 +655,14 @@ func runC13(c *Ctx) {
 			return isMappingUpd(in)
 		}, func(in ssa.Instruction) bool {
 			call, ok := in.(*ssa.Call)
-			return ok && call.Call.IsInvoke() && call.Call.Method.Name() == "Referrers"
+			if ok && call.Call.IsInvoke() && call.Call.Method.Name() == "Referrers" {
+				return true
+			}
+			if ci, isCall := in.(ssa.CallInstruction); isCall {
+				_, isHelper := reenqueueHelper(ci)
+				return isHelper
+			}
+			return false
 		}, nil)
 		c.Check(FuncKey(fwd)+"::every-change-re-enqueues", upd.Pos(), t == nil, "every change of a mapping is followed by consulting the changed value's referrers; path: %s", PathString(fwd, path))
 		// initial worklist = all instructions
@@ -615,25 +759,51 @@ func runC13(c *Ctx) {
 					if !ok {
 						return
 					}
-					if DerivesLocal(ms.Len, func(v ssa.Value) bool {
-						call, ok := v.(*ssa.Call)
-						if !ok || !IsCallTo(call, "builtin.max") {
-							return false
-						}
-						la, lb := false, false
-						for _, arg := range call.Call.Args {
-							if l, ok := arg.(*ssa.Call); ok && IsCallTo(l, "builtin.len") {
-								if l.Call.Args[0] == ssa.Value(a) {
-									la = true
+					// max(len(a), len(b)): the builtin, or a variable that starts as one length and is replaced by
+					// the other exactly when that one is larger
+					isLenOf := func(v ssa.Value, p *ssa.Parameter) bool {
+						l, ok := v.(*ssa.Call)
+						return ok && IsCallTo(l, "builtin.len") && l.Call.Args[0] == ssa.Value(p)
+					}
+					for x := range BackSlice(ms.Len, SliceOpts{}) {
+						switch x := x.(type) {
+						case *ssa.Call:
+							if IsCallTo(x, "builtin.max") {
+								la, lb := false, false
+								for _, arg := range x.Call.Args {
+									la = la || isLenOf(arg, a)
+									lb = lb || isLenOf(arg, b)
 								}
-								if l.Call.Args[0] == ssa.Value(b) {
-									lb = true
+								if la && lb {
+									sized = true
+								}
+							}
+						case *ssa.Phi:
+							if len(x.Edges) != 2 {
+								continue
+							}
+							for i, e := range x.Edges {
+								o := x.Edges[1-i]
+								var pe, po *ssa.Parameter
+								switch {
+								case isLenOf(e, a) && isLenOf(o, b):
+									pe, po = a, b
+								case isLenOf(e, b) && isLenOf(o, a):
+									pe, po = b, a
+								default:
+									continue
+								}
+								// edge i carries len(pe): it must be selected only where len(pe) > / >= len(po)
+								larger := CmpEdges(merge, func(l, r ssa.Value) bool { return isLenOf(l, pe) && (isLenOf(r, po) || r == o) || l == e && (isLenOf(r, po) || r == o) },
+									func(rel string, truth bool) bool {
+										return (rel == ">" || rel == ">=") && truth || (rel == "<" || rel == "<=") && !truth
+									})
+								pred := x.Block().Preds[i]
+								if ok, _ := MustPassEdges(merge, pred.Instrs[len(pred.Instrs)-1], larger); ok && len(larger) > 0 {
+									sized = true
 								}
 							}
 						}
-						return la && lb
-					}) {
-						sized = true
 					}
 				})
 				c.Check(dfaPkg+".DenseMapLattice.Merge::result-as-long-as-the-longer-operand", merge.Pos(), sized, "the dense result has max(len(a), len(b)) elements")
